@@ -3583,6 +3583,9 @@ theorem Inv.opBody {σ : State} {t : Loc} (sl : Option Loc) (op : Op) (inv : Inv
   | ctorLit k l => exact Or.inl ⟨_, rfl, ba⟩
   | ctorType k ty => exact Or.inl ⟨_, rfl, ba⟩
   | ctorKV k key q => exact Or.inl ⟨_, rfl, ba⟩
+  | ctorArr k lits => exact Or.inl ⟨_, rfl, ba⟩
+  | ctorDic k pairs => exact Or.inl ⟨_, rfl, ba⟩
+  | ctorVars k qs => exact Or.inl ⟨_, rfl, ba⟩
 
 theorem replaceSlot_badarg {σ : State} {k : Nat} {v : V} (hk : ¬ k < σ.slots.length) :
     Var.replaceSlot σ k v = .error .badarg := by
@@ -3595,6 +3598,106 @@ theorem Inv.replaceRoot {σ σ0 : State} {k : Nat} {v : V} (inv : Inv σ [v]) (h
   · obtain ⟨σ', h1, inv', hs'⟩ := inv.replaceSlot hk
     exact Or.inr ⟨σ', h1, inv', by rw [hs', hs]⟩
   · exact Or.inl ⟨_, replaceSlot_badarg hk, Or.inr (Or.inr (Or.inr (Or.inl rfl)))⟩
+
+theorem Inv.scalars {σ : State} {T : List V} (inv : Inv σ T) : ∀ (l : List V), (∀ v ∈ l, handleOf v = none) → Inv σ (l ++ T)
+  | [], _ => by simpa using inv
+  | v :: rest, h => by
+    have := Inv.scalars inv rest (fun w hw => h w (by simp [hw]))
+    exact (Inv.scalar (T := rest ++ T) (h v (by simp))).mpr this
+
+/-- what `replaceSlot` does to the state -/
+theorem replaceSlot_spec {σ σ' : State} {k : Nat} {v : V} {T : List V} (inv : Inv σ (v :: T)) (h : Var.replaceSlot σ k v = .ok σ') :
+    σ'.slots = σ.slots.set k v ∧ k < σ.slots.length ∧ SubItems σ.heap σ'.heap := by
+  unfold Var.replaceSlot at h
+  by_cases hk : k < σ.slots.length
+  · simp only [hk, if_true] at h
+    cases hd : Var.drop σ.heap [slotV σ k] with
+    | error e => simp [hd] at h
+    | ok h' =>
+      simp only [hd, Except.ok.injEq] at h
+      subst h
+      refine ⟨rfl, hk, ?_⟩
+      obtain ⟨σ1, old, hr, hw, inv1, _, _⟩ := inv.writeLoc (l := .slot k) hk (fun _ _ hp => by simp [parentOf] at hp)
+      simp only [Var.writeLoc, hk, if_true, Except.ok.injEq] at hw
+      subst hw
+      have hold : slotV σ k = old := by
+        simp only [readLoc, List.getElem?_eq_getElem hk, Except.ok.injEq] at hr
+        simp [slotV, List.getD_eq_getElem?_getD, List.getElem?_eq_getElem hk, hr]
+      obtain ⟨h'', hd', _, sub⟩ := Inv.drop (σ := { σ with slots := σ.slots.set k v }) (wl := [old]) (T := T) (by simpa using inv1)
+      rw [hold] at hd
+      simp only [] at hd'
+      rw [hd] at hd'; cases hd'
+      exact sub
+  · simp [hk] at h
+
+theorem Inv.copyAll {T : List V} : ∀ (vals : List V) (σ : State), Inv σ T → (∀ v ∈ vals, LiveV σ.heap v) →
+    ∃ h', Var.copyAll σ.heap vals = .ok h' ∧ Inv { σ with heap := h' } (vals ++ T) ∧ SameItems σ.heap h'
+  | [], σ, inv, _ => ⟨σ.heap, rfl, by simpa using inv, SameItems.refl _⟩
+  | v :: rest, σ, inv, hl => by
+    obtain ⟨h1, hc, inv1, same1⟩ := inv.copyLive (hl v (by simp))
+    simp only [Var.copyAll, hc]
+    obtain ⟨h2, hc2, inv2, same2⟩ := Inv.copyAll (T := v :: T) rest { σ with heap := h1 } inv1 (by
+      intro w hw
+      exact (SameDom.of_same same1).liveV (hl w (by simp [hw])))
+    refine ⟨h2, hc2, ?_, same1.trans same2⟩
+    apply inv2.perm
+    · intro x hx; simp only [List.cons_append, List.mem_cons, List.mem_append] at hx ⊢
+      rcases hx with h0 | h0 | h0
+      · exact Or.inr (Or.inl h0)
+      · exact Or.inl h0
+      · exact Or.inr (Or.inr h0)
+    · intro id; simp only [List.cons_append, occ_cons, occ_append]; omega
+
+theorem mapE_held {σ : State} {T : List V} (inv : Inv σ T) : ∀ (qs : List Path),
+    (∃ e, mapE qs (cget σ) = .error e ∧ e = .nopath) ∨ ∃ vals, mapE qs (cget σ) = .ok vals ∧ ∀ v ∈ vals, Held σ T v
+  | [] => Or.inr ⟨[], rfl, fun _ h => by cases h⟩
+  | q :: rest => by
+    simp only [mapE]
+    rcases inv.cget q with ⟨e, h1, he⟩ | ⟨v, h1, hv⟩
+    · left; exact ⟨e, by rw [h1], he⟩
+    · rw [h1]
+      rcases mapE_held inv rest with ⟨e, h2, he⟩ | ⟨vals, h2, hvals⟩
+      · left; exact ⟨e, by simp only [h2], he⟩
+      · right; refine ⟨v :: vals, by simp only [h2], ?_⟩
+        intro w hw
+        rcases List.mem_cons.mp hw with rfl | hw
+        · exact hv
+        · exact hvals w hw
+
+/-- the entries of a `Dic` built from pairs: ascending keys, and no value that was not given -/
+theorem dicOfPairs_spec : ∀ (pairs acc : List (Bytes × V)), SortedItems acc →
+    ∃ items, dicOfPairs acc pairs = .ok items ∧ SortedItems items ∧
+      ∀ v ∈ items.map (·.2), v ∈ acc.map (·.2) ∨ v ∈ pairs.map (·.2)
+  | [], acc, hs => ⟨acc, rfl, hs, fun v hv => Or.inl hv⟩
+  | (k, x) :: rest, acc, hs => by
+    obtain ⟨acc', hset, hs', _⟩ := AslProofs.Map.set_spec cmpB_strict hs k x
+    simp only [dicOfPairs, hset]
+    obtain ⟨items, h1, h2, h3⟩ := dicOfPairs_spec rest acc' hs'
+    refine ⟨items, h1, h2, fun v hv => ?_⟩
+    have hmem : ∀ w ∈ acc'.map (·.2), w ∈ acc.map (·.2) ∨ w = x := by
+      intro w hw
+      unfold Map.set at hset
+      cases hi : Map.indexOf Map.cmpBytes acc k with
+      | none => simp [hi] at hset
+      | some r =>
+        simp only [hi] at hset
+        split at hset
+        · simp only [Option.some.injEq] at hset; subst hset
+          rw [map_snd_setValAt] at hw
+          rcases List.mem_or_eq_of_mem_set hw with h0 | h0
+          · exact Or.inl h0
+          · exact Or.inr h0
+        · simp only [Option.some.injEq] at hset; subst hset
+          rw [List.mem_map] at hw
+          obtain ⟨kv, hkv, e⟩ := hw
+          rcases mem_insertAt hkv with h0 | h0
+          · right; rw [← e, h0]
+          · left; rw [← e]; exact List.mem_map_of_mem h0
+    rcases h3 v hv with h0 | h0
+    · rcases hmem v h0 with h4 | h4
+      · exact Or.inl h4
+      · right; simp [h4]
+    · right; simp only [List.map_cons, List.mem_cons]; exact Or.inr h0
 
 theorem Inv.rootOp {σ : State} (op : Op) (inv : Inv σ []) : BodyOK σ (Var.rootOp σ op) := by
   have ba : Refusal .badarg := Or.inr (Or.inr (Or.inr (Or.inl rfl)))
@@ -3639,6 +3742,40 @@ theorem Inv.rootOp {σ : State} (op : Op) (inv : Inv σ []) : BodyOK σ (Var.roo
       have inv3 := Inv.alloc (σ := { σ with heap := h' }) (T := [])
         (b := { emptyBlock true with items := [(key, src)] }) (by simpa [bvals] using inv2) rfl
         (by intro _; simp [SortedItems, AslProofs.Map.Sorted])
+      exact Inv.replaceRoot inv3 rfl
+  | ctorArr k lits =>
+    simp only [Var.rootOp, Var.opCtorArr, allocB]
+    have hb : bvals { isObj := false, items := lits.map (fun l => (([] : Bytes), l.toV)), cap := litCap lits.length, rc := 1 } = lits.map Lit.toV := by
+      simp [bvals, List.map_map, Function.comp_def]
+    have inv3 := Inv.alloc (σ := σ) (T := [])
+      (b := { isObj := false, items := lits.map (fun l => (([] : Bytes), l.toV)), cap := litCap lits.length, rc := 1 })
+      (by rw [hb]; exact Inv.scalars inv _ (by intro v hv; obtain ⟨l, _, rfl⟩ := List.mem_map.mp hv; exact Lit.toV_scalar l)) rfl
+      (by intro h; cases h)
+    exact Inv.replaceRoot inv3 rfl
+  | ctorDic k pairs =>
+    simp only [Var.rootOp, Var.opCtorDic]
+    obtain ⟨items, h1, hs, hv⟩ := dicOfPairs_spec (pairs.map fun kl => (kl.1, kl.2.toV)) [] (by simp [SortedItems, AslProofs.Map.Sorted])
+    rw [h1]; simp only [allocB]
+    have inv3 := Inv.alloc (σ := σ) (T := []) (b := { isObj := true, items := items, cap := litCap items.length, rc := 1 })
+      (by
+        have := Inv.scalars inv (items.map (·.2)) (fun v hv' => by
+          rcases hv v hv' with h0 | h0
+          · simp at h0
+          · simp only [List.map_map, List.mem_map] at h0; obtain ⟨kl, _, rfl⟩ := h0; exact Lit.toV_scalar _)
+        exact this) rfl (fun _ => hs)
+    exact Inv.replaceRoot inv3 rfl
+  | ctorVars k qs =>
+    simp only [Var.rootOp, Var.opCtorVars]
+    rcases mapE_held inv qs with ⟨e, h1, he⟩ | ⟨vals, h1, hvals⟩
+    · rw [h1]; subst he; exact Or.inl ⟨_, rfl, np⟩
+    · rw [h1]
+      obtain ⟨h', h2, inv2, _⟩ := Inv.copyAll vals σ inv (fun v hv => Held.live inv (hvals v hv))
+      simp only [h2, allocB]
+      have hb : bvals { isObj := false, items := vals.map (fun v => (([] : Bytes), v)), cap := max vals.length 3, rc := 1 } = vals := by
+        simp [bvals, List.map_map, Function.comp_def]
+      have inv3 := Inv.alloc (σ := { σ with heap := h' }) (T := [])
+        (b := { isObj := false, items := vals.map (fun v => (([] : Bytes), v)), cap := max vals.length 3, rc := 1 })
+        (by rw [hb]; exact inv2) rfl (by intro h; cases h)
       exact Inv.replaceRoot inv3 rfl
   | setLit p l => exact Or.inl ⟨_, rfl, ba⟩
   | setType p ty => exact Or.inl ⟨_, rfl, ba⟩
